@@ -1,18 +1,18 @@
-\* the code as written (tcp.go:307): TLC must find the early half-close (model finding, reproduced on the code by c06)
-SPECIFICATION Spec
+\* C02 liveness under weak fairness, no state constraint
+SPECIFICATION LiveSpec
 CONSTANTS
   Conns = {1}
   HsKinds = {"valid"}
   TgtKinds = {"ok"}
-  MaxC = 1
-  MaxT = 1
+  MaxC = 2
+  MaxT = 2
   MaxTok = 5
-  AllowBad = TRUE
+  AllowBad = FALSE
   AllowSplit = FALSE
   AllowRst = FALSE
   AllowTClose = FALSE
   AllowCRst = FALSE
-  AllowPause = FALSE
+  AllowPause = TRUE
   Planned = FALSE
   Timeout = 2
   MaxNow = 0
@@ -23,5 +23,4 @@ CONSTANTS
   SlackEarly = 0
   SlackLate = 0
   SlackSched = 0
-INVARIANTS Inv_C06Drain
-VIEW View
+PROPERTIES C02_Live
